@@ -19,7 +19,7 @@ from ..report import AnalysisError
 from ..term import Resolver, pmatch, find_all, abstract, anf_of
 
 FLOORS = {"float-arithmetic": 1, "must-pass-through": 4, "slot-binding": 3, "hmc-posterior-args": 5, "hmc-reflect-order": 1,
-          "fold-form": 8, "start-validated": 4, "limit-fsm": 1, "reject-leaves-limits": 2}
+          "fold-form": 8, "start-validated": 4, "limit-fsm": 1, "reject-leaves-limits": 2, "limits-stored": 3}
 UTIL = "inference/mcmc/utilities.py"
 
 
@@ -97,10 +97,14 @@ def run(prog, tier):
     ob, extra = _limit_fsm(prog)
     obs.append(ob)
 
+    # ---------------------------------------------------------------- the limits stored are the limits given
+    obs.extend(_limits_stored(prog))
     # ---------------------------------------------------------------- a rejected request leaves the limits in force untouched
     obs.extend(_reject_leaves_state(prog, "Parameter"))
 
     obs.extend(dtype_hazard_obligations(prog, "float-arithmetic", ['inference/mcmc/utilities.py']))
+    from .common import call_order_obligations
+    obs.extend(call_order_obligations(prog, "arguments-in-order", ['inference/mcmc/utilities.py']))
 
     meta = {
         "explanation": "Def-use must-pass-through: every posterior argument and stored point of the bounded samplers resolves to "
@@ -496,6 +500,63 @@ def _start_validated(prog):
     return out
 
 
+def _limits_stored(prog):
+    """Parameter.set_boundaries(lower, upper): on the accepting path self.lower / self.upper are the arguments and self.width is
+    their difference (the fold of boundary_proposal is proven for width = upper - lower); the chain-level setters hand the
+    request to the parameter it names, with the values given."""
+    out = []
+    pc = prog.cls("Parameter")
+    sb = pc.methods["set_boundaries"]
+    lo, up = sb.args.args[1].arg, sb.args.args[2].arg
+    rz = Resolver(sb, prog, pc.module, pc)
+    stored = {}
+    for st in ast.walk(sb):
+        if isinstance(st, ast.Assign) and len(st.targets) == 1 and isinstance(st.targets[0], ast.Attribute) and U(st.targets[0].value) == "self":
+            stored.setdefault(st.targets[0].attr, []).append(rz.term(st.value, st))
+    why = []
+    for attr, want in (("lower", lo), ("upper", up)):
+        vals = stored.get(attr, [])
+        if len(vals) != 1 or U(vals[0]) != want:
+            why.append(f"self.{attr} is set to {[U(v) for v in vals]}, not to `{want}`")
+    wv = stored.get("width", [])
+    okw = False
+    if len(wv) == 1:
+        try:
+            okw = anf_of(wv[0]).eq(R.sym(up) - R.sym(lo))
+        except Unsupported:
+            okw = False
+    if not okw:
+        why.append(f"self.width is {[U(v) for v in wv]}, not `{up} - {lo}`")
+    out.append(struct_ob("limits-stored", qual(pc, sb), not why, "; ".join(why), pc.module.relpath, sb.lineno, tier="F"))
+    # chain-level delegation
+    for cname in ("MetropolisChain",):
+        ci = prog.cls(cname)
+        for mname in ("set_boundaries", "set_non_negative"):
+            fn = ci.methods.get(mname)
+            if fn is None:
+                raise AnalysisError(f"anchor vanished: {cname}.{mname}")
+            idx = fn.args.args[1].arg
+            val = fn.args.args[2].arg
+            txt = [U(st) for st in ast.walk(fn) if isinstance(st, (ast.Expr, ast.Assign))]
+            if mname == "set_non_negative":
+                rzc = Resolver(fn, prog, ci.module, ci)
+                ok = any(len(st.targets) == 1 and isinstance(st.targets[0], ast.Attribute) and st.targets[0].attr == "non_negative"
+                         and U(rzc.term(st.targets[0].value, st)) == f"self.params[{idx}]" and U(rzc.term(st.value, st)) == val
+                         for st in ast.walk(fn) if isinstance(st, ast.Assign))
+                need = f"self.params[{idx}].non_negative = {val}"
+            else:
+                rzc = Resolver(fn, prog, ci.module, ci)
+                calls = [rzc.term(n, rzc.stmt_of(n)) for n in ast.walk(fn) if isinstance(n, ast.Call)]
+                ok = any(pmatch(c_, pt) is not None for c_ in calls for pt in (
+                    f"self.params[{idx}].set_boundaries(*{val})", f"self.params[{idx}].set_boundaries({val}[0], {val}[1])")) and any(
+                    pmatch(c_, f"self.params[{idx}].remove_boundaries()") is not None for c_ in calls)
+                need = f"self.params[{idx}].set_boundaries(*{val}) / .remove_boundaries()"
+            out.append(struct_ob("limits-stored", qual(ci, fn), ok,
+                                 f"the chain-level request must reach the named parameter with the values given (`{need}`); body: {txt[:3]}",
+                                 ci.module.relpath, fn.lineno))
+    return out
+
+
 def _is_reject_arm(stmts):
     """An arm that only reports: warn(..) / raise / pass / bare return - and changes nothing."""
     if not stmts:
@@ -654,6 +715,14 @@ def _limit_fsm(prog):
     abs_nonneg = any(isinstance(r, ast.Return) and isinstance(r.value, ast.Call) and U(r.value.func) == "abs"
                      for r in ast.walk(ap))
     bad = []
+    # every accepted request takes effect: after set_boundaries(valid) the limits are in force, after remove_boundaries they are
+    # not, after non_negative = v the flag is v - from every reachable state
+    for k, (s, trace) in seen.items():
+        for opname, want in (("set_boundaries", ("bounded", True)), ("remove_boundaries", ("bounded", False)),
+                             ("non_negative=True", ("_non_negative", True)), ("non_negative=False", ("_non_negative", False))):
+            for s2 in ops[opname](dict(s)):
+                if s2.get(want[0]) is not want[1]:
+                    bad.append((k, (trace or []) + [opname], f"the request has no effect: `{want[0]}` is {s2.get(want[0])} afterwards"))
     for k, (s, trace) in seen.items():
         prop = s["proposal"][1] if isinstance(s["proposal"], tuple) else str(s["proposal"])
         if s["bounded"] is True and prop != "boundary_proposal":
